@@ -47,6 +47,7 @@ func (l govcRLoggers) With(...tag.Tag) logging.LoggerProvider { return l }
 
 type govcRFwd struct {
 	target  history.ClusterShardID
+	stream  *govcRTargetStream // the stream INCARNATION the task was forwarded on
 	proxyID int64
 }
 
@@ -60,6 +61,8 @@ type govcRWorld struct {
 	where map[int64]govcRFwd
 	// targetAcked[target] = highest inclusive low watermark that target stream has sent so far
 	targetAcked map[history.ClusterShardID]int64
+	// streamAcked[incarnation] = the same, per target stream incarnation (proxy ids restart with each incarnation)
+	streamAcked map[*govcRTargetStream]int64
 	// upstream = acks the proxy sent to the source shard (keepalive repeats excluded)
 	upstream   []int64
 	lastReq    *adminservice.StreamWorkflowReplicationMessagesRequest
@@ -71,6 +74,7 @@ func newGovcRWorld() *govcRWorld {
 		received:    map[int64]bool{},
 		where:       map[int64]govcRFwd{},
 		targetAcked: map[history.ClusterShardID]int64{},
+		streamAcked: map[*govcRTargetStream]int64{},
 	}
 }
 
@@ -95,10 +99,10 @@ func (w *govcRWorld) onUpstreamAck(req *adminservice.StreamWorkflowReplicationMe
 			continue
 		}
 		// a target stream confirms proxy task p by sending an inclusive low watermark > p
-		if w.targetAcked[fwd.target] <= fwd.proxyID {
+		if w.streamAcked[fwd.stream] <= fwd.proxyID {
 			w.violations = append(w.violations, fmt.Sprintf(
-				"ack %d sent to source, but task %d (forwarded to target %s as proxy id %d) is unconfirmed: that target stream has only acked %d",
-				a, id, ClusterShardIDtoString(fwd.target), fwd.proxyID, w.targetAcked[fwd.target]))
+				"ack %d sent to source, but task %d (forwarded to target %s as proxy id %d) is unconfirmed: the target stream incarnation that got it has only acked %d",
+				a, id, ClusterShardIDtoString(fwd.target), fwd.proxyID, w.streamAcked[fwd.stream]))
 		}
 	}
 }
@@ -179,7 +183,7 @@ func (s *govcRTargetStream) Send(resp *adminservice.StreamWorkflowReplicationMes
 	s.world.mu.Lock()
 	for _, t := range m.ReplicationTasks {
 		orig, _ := strconv.ParseInt(t.RawTaskInfo.RunId, 10, 64)
-		s.world.where[orig] = govcRFwd{target: s.shard, proxyID: t.SourceTaskId}
+		s.world.where[orig] = govcRFwd{target: s.shard, stream: s, proxyID: t.SourceTaskId}
 	}
 	s.world.mu.Unlock()
 	s.mu.Lock()
@@ -225,6 +229,9 @@ func (s *govcRTargetStream) ack(w int64) {
 	s.world.mu.Lock()
 	if w > s.world.targetAcked[s.shard] {
 		s.world.targetAcked[s.shard] = w
+	}
+	if w > s.world.streamAcked[s] {
+		s.world.streamAcked[s] = w
 	}
 	s.world.mu.Unlock()
 	s.acks <- &adminservice.StreamWorkflowReplicationMessagesRequest{
@@ -340,6 +347,28 @@ func (r *govcRRig) connectTarget(shardID int32) *govcRTargetStream {
 	return ts
 }
 
+// connectTargetOwn is connectTarget with a shutdown latch and stream context of its own, so that this target stream
+// can break (and reconnect as a new incarnation) while everything else keeps running.
+func (r *govcRRig) connectTargetOwn(shardID int32) (*govcRTargetStream, func()) {
+	shard := history.ClusterShardID{ClusterID: 2, ShardID: shardID}
+	ctx, cancel := context.WithCancel(r.ctx)
+	latch := channel.NewShutdownOnce()
+	ts := &govcRTargetStream{ctx: ctx, world: r.world, shard: shard,
+		acks: make(chan *adminservice.StreamWorkflowReplicationMessagesRequest, 16)}
+	sender := &proxyStreamSender{
+		logger:         log.NewNoopLogger(),
+		shardManager:   r.sm,
+		sourceShardID:  history.ClusterShardID{ClusterID: 1, ShardID: shardID},
+		targetShardID:  shard,
+		directionLabel: "demo",
+	}
+	done := make(chan struct{})
+	go func() { sender.Run(ts, latch); close(done) }()
+	govcRWaitFor(r.t, "sender send channel", func() bool { _, ok := r.sm.GetRemoteSendChan(shard); return ok })
+	r.t.Cleanup(func() { latch.Shutdown(); cancel() })
+	return ts, func() { cancel(); latch.Shutdown(); <-done }
+}
+
 // ackAndWait lets a target stream acknowledge and waits until the proxy has turned that
 // into an acknowledgement to the source shard (in these scenarios every target ack does).
 func (r *govcRRig) ackAndWait(ts *govcRTargetStream, w int64) {
@@ -423,6 +452,42 @@ func govcScenarioAllAck(t *testing.T) []string {
 	A.ack(4)
 	time.Sleep(100 * time.Millisecond)
 	return rig.violations()
+}
+
+// D10: one source shard, one target shard. Task 10 is forwarded to the target stream, which breaks before confirming
+// it. The target reconnects (new incarnation, empty id table, proxy ids restart). The source's next watermark-only
+// batch is forwarded to the new incarnation, which acknowledges it. The proxy must not acknowledge past task 10.
+func govcScenarioTargetBreak(t *testing.T) []string {
+	const ns = "ns-govc"
+	rig := newGovcRRig(t, 1)
+	wid := govcRWorkflowFor(ns, 1, 1)
+	A1, breakA1 := rig.connectTargetOwn(1)
+	rig.source.batches <- govcRBatch(11, govcRTask(10, ns, wid))
+	govcRWaitFor(t, "A1 got task 10", func() bool { _, n, _, _ := A1.state(); return n == 1 })
+	breakA1() // the stream dies holding the unconfirmed task
+	govcRWaitFor(t, "A1 unregistered", func() bool { _, ok := rig.sm.GetRemoteSendChan(A1.shard); return !ok })
+	A2, _ := rig.connectTargetOwn(1)
+	rig.source.batches <- govcRBatch(11)
+	govcRWaitFor(t, "A2 got the watermark", func() bool { _, _, w, _ := A2.state(); return w >= 1 })
+	_, _, _, msgs := A2.state()
+	_ = msgs
+	A2.ack(1 << 40) // the new incarnation confirms everything IT was sent
+	deadline := time.Now().Add(2 * time.Second)
+	for time.Now().Before(deadline) && rig.world.violationCount() == 0 {
+		time.Sleep(5 * time.Millisecond)
+	}
+	return rig.violations()
+}
+
+func TestGovcReplayRoutingTargetBreak(t *testing.T) {
+	v := govcScenarioTargetBreak(t)
+	if len(v) == 0 {
+		fmt.Println("REPLAY-OK no acknowledgement covered an unconfirmed task")
+		return
+	}
+	for _, m := range v {
+		fmt.Println("REPLAY-VIOLATION", m)
+	}
 }
 
 func TestGovcReplayRoutingSilentTarget(t *testing.T) {
